@@ -7,7 +7,7 @@ from common import rng
 FAMILY = "ladder"
 HARNESS = {"source": "x_ladder.c", "exclude_objs": ["loop"], "leak_clean": True}
 ENV = {"VERIF_LEAKCHECK": "1"}
-RULE = ("packet: 0..9 names, each already normalised or respelled (13 fixed + random flag strings) x every fault position; "
+RULE = ("deser: every generated list shape without numbers x every fault position; packet: 0..9 names, each already normalised or respelled (13 fixed + random flag strings) x every fault position; "
         "copychar: 6 target shapes x fault positions 0..2; dup: n = 0..12 x every fault position 0..n+2; names: n = 1..8 stored item names x every fault position 0..2n+2; clone / insert / set: value shapes (scalars, numbers with and without su, "
         "lists nested <= 3, width <= 4; random beyond the enumerated small ones) x every fault position 0..(allocations+1); "
         "non-trivial = a fault position that is reached; oracle: on failure nothing allocated in the call stays live, no "
@@ -46,6 +46,12 @@ def rand_shape(r, depth):
     return r.choice(["S", "C", "C", "M0", "M1"])
 
 
+def rand_nonum(r, depth):
+    if depth > 0 and r.random() < 0.4:
+        return [rand_nonum(r, depth - 1) for _ in range(r.randint(0, 4))]
+    return r.choice(["S", "C", "C"])
+
+
 def generate(seed, tier):
     r = rng(seed, FAMILY)
     for n in range(0, 13 if tier == "quick" else 40):
@@ -66,7 +72,9 @@ def generate(seed, tier):
         for k in range(0, 3):
             yield "ladder copychar %s %d" % (" ".join(toks(tsh)), k)
     shapes = ["S", "C", "M0", "M1", [], ["C"], ["C", "M1"], [[]], [["C"], "S"], ["M0", ["C", ["M1"]], "C"]]
+    shapes += [[], ["S"], ["C", "S", "C"], [[], "C"], ["C", ["C", ["C", "S"]], [], "C"]]
     shapes += [rand_shape(r, 3) for _ in range(40 if tier == "quick" else 600)]
+    shapes += [[rand_nonum(r, 2) for _ in range(r.randint(0, 4))] for _ in range(12 if tier == "quick" else 150)]
     for sh in shapes:
         n = nallocs(sh)
         for k in range(0, n + 2):
@@ -75,6 +83,11 @@ def generate(seed, tier):
             for full in (0, 1):
                 for k in range(0, n + 3):
                     yield "ladder insert %d %s %d" % (full, " ".join(toks(sh)), k)
+        if isinstance(sh, list) and "M" not in " ".join(toks(sh)):
+            # blob of a list without numbers: the requests are a subset of the clone's (no top object, no array for an
+            # empty list), so 0..n+1 covers every fault position
+            for k in range(0, n + 2):
+                yield "ladder deser %s %d" % (" ".join(toks(sh)), k)
         # replace an existing element (of a few different shapes) by a clone of sh: the clone is built in a scratch object
         # (n requests), fault positions 0..n+1
         for tsh in (TARGETS if len(toks(sh)) < 12 else TARGETS[:2]):
@@ -115,7 +128,7 @@ def oracle(req, impl):
     for bad in ("later-insert=", "unreadable@", "size="):
         if bad in impl:
             return "the caller's list is not usable as a list after the call: " + impl.split(bad, 1)[1].split()[0].join([bad, ""])
-    for mark in ("!PNAME", "!PCOUNT", "!PITEM", "!NOPACKET", "!TEXT"):
+    for mark in ("!PNAME", "!PCOUNT", "!PITEM", "!NOPACKET", "!TEXT", "!NEWVALUE"):
         if mark in impl:
             return "after success the created packet / the character value is not what was requested: " + mark
     if "!NAMES" in impl or "setup-failed" in impl:
